@@ -74,6 +74,7 @@ HDR_FIELD = {
     1: [("reg", I(-7), True), ("reg0", I(0), True), ("priv", I(-65537), True), ("text", T("HS"), True), ("edge", I(-65536), False),
         ("unreg", I(9), False), ("bytes", B(b"a"), False)],
     2: [("one", A(I(4)), True), ("three", A(I(4), I(1), T("z")), True), ("rep", A(I(1), I(1)), True), ("empty", A(), False),
+        ("long", ('a', [I(1), I(2), I(3), I(4), I(5), I(6), I(7)] * 3 + [T("x%d" % i) for i in range(8)]), True),
         ("unreg", A(I(8)), False), ("neg", A(I(-1)), False), ("notarr", I(1), False)],
     3: [("int", I(50), True), ("int0", I(0), True), ("text", T("a/b"), True), ("noslash", T("ab"), False), ("ws", T(" a/b"), False),
         ("emptyside", T("a/"), True), ("empty", T(""), False), ("unreg", I(1), False), ("bytes", B(b"a/b"), False)],
@@ -139,6 +140,8 @@ KEY_FIELD = {
     2: [("ok", B(b"id"), True), ("empty", B(b""), False), ("text", T("id"), False)],
     3: [("reg", I(-7), True), ("priv", I(-65537), True), ("text", T(""), True), ("edge", I(-65536), False), ("unreg", I(9), False), ("arr", A(), False)],
     4: [("one", A(I(1)), True), ("two", A(I(2), I(1)), True), ("text", A(T("x"), I(10)), True), ("emptytext", A(T("")), True),
+        ("all10text", ('a', [I(i) for i in range(1, 11)] + [T("attest")]), True), ("texts12", ('a', [T("op%d" % i) for i in range(12)]), True),
+        ("all10dup", ('a', [I(i) for i in range(1, 11)] + [I(3)]), False),
         ("empty", A(), False), ("adjdup", A(I(3), I(3)), False), ("farDup", A(I(3), I(4), I(3)), False), ("textdup", A(T("x"), I(1), T("x")), False),
         ("unreg", A(I(11)), False), ("zero", A(I(0)), False), ("notarr", I(1), False)],
     5: [("ok", B(b"iv"), True), ("empty", B(b""), False), ("int", I(1), False)],
@@ -387,9 +390,9 @@ def wide_inputs():
 
 # ------------------------------------------------------------------ follow the current registries
 HDR_FIELD[1] = retable(HDR_FIELD[1], "Algorithm", ("reg", "reg0", "priv", "edge", "unreg"), True)
-HDR_FIELD[2] = retable(HDR_FIELD[2], "HeaderParameter", ("one", "three", "rep", "unreg", "neg"))
+HDR_FIELD[2] = retable(HDR_FIELD[2], "HeaderParameter", ("one", "three", "rep", "unreg", "neg", "long"))
 HDR_FIELD[3] = retable(HDR_FIELD[3], "CoapContentFormat", ("int", "int0", "unreg"))
 KEY_FIELD[1] = retable(KEY_FIELD[1], "KeyType", ("okp", "ec2", "sym", "reserved", "unreg", "neg"), reserved=(0,))
 KEY_FIELD[3] = retable(KEY_FIELD[3], "Algorithm", ("reg", "priv", "edge", "unreg"), True)
-KEY_FIELD[4] = retable(KEY_FIELD[4], "KeyOperation", ("one", "two", "text", "unreg", "zero"))
+KEY_FIELD[4] = retable(KEY_FIELD[4], "KeyOperation", ("one", "two", "text", "unreg", "zero", "all10text"))
 CLAIM_EXTRA = [(n, kv, (tables.acceptable("CwtClaimName", kv[0][1], True) and -2**63 <= kv[0][1] < 2**63) if kv[0][0] == 'i' else ok) for n, kv, ok in CLAIM_EXTRA]
